@@ -339,6 +339,9 @@ func (m *Model) updateMode(mode *traits.ElectricMode, opts ...resource.WriteOpti
 		}
 	}
 
+	// the id is part of every write, whatever the update mask says: a mode created by this call (create-if-absent)
+	// from the masked fields alone would be filed under its key with an empty Id of its own
+	opts = append(opts[:len(opts):len(opts)], resource.WithMoreUpdatePaths("id"))
 	msg, err := m.modes.Update(mode.Id, mode, opts...)
 	if err != nil {
 		return nil, err
